@@ -27,6 +27,11 @@ type bytesPooler struct {
 
 // get returns the bytesPoolItem object with byte slice of a 'size' length
 func (bp *bytesPooler) get(size int) (payload *bytesPoolItem) {
+	if verifHooks {
+		if p := verifGet(size); p != nil {
+			return p
+		}
+	}
 	payload = bp.sp.Get().(*bytesPoolItem)
 	// Reset slice length or grow it to requested size for use with copy
 	if cap(payload.s) >= size {
@@ -41,5 +46,10 @@ func (bp *bytesPooler) get(size int) (payload *bytesPoolItem) {
 // put returns reference to the payload slice back to pool
 // Don't use the payload after a call to put
 func (bp *bytesPooler) put(payload *bytesPoolItem) {
+	if verifHooks {
+		if verifPut(payload) {
+			return
+		}
+	}
 	bp.sp.Put(payload)
 }
